@@ -24,7 +24,7 @@ ASSUMPTIONS = ["exit callbacks: the exitstack family runs every flavour assignme
                "context managers (sync / async) and callbacks over all stacks of <=2 (thorough 3) entries x 6 behaviours x block outcome; "
                "the unwinding order itself is C14's subject"]
 KINDS = ["list", "seq", "iter", "agen", "aobj"]
-FLAV = ["def", "async", "partial", "obj", "objx", "cls", "bound"]   # objx: callable object whose failure is raised at call time
+FLAV = ["def", "async", "partial", "obj", "objx", "cls", "bound", "wrapsdef"]   # objx: callable object whose failure is raised at call time
 
 
 def _groupby_cases(tier):
@@ -125,6 +125,15 @@ def _run_awaitify(case):
             async def m(self, *a):
                 return base_body(a)
         f = H().m
+    elif fl == "wrapsdef":
+        import functools as _ft2
+
+        async def _orig(*a):
+            raise AssertionError("must not be called")
+
+        @_ft2.wraps(_orig)
+        def f(*a):
+            return base_body(a)
     else:
         class OX:
             def __call__(self, *a):
@@ -360,7 +369,7 @@ def model_request(case):
     if case.get("family") == "awaitify":
         # for Awaitify a class with awaitable instances is "a callable returning an awaitable" (like obj), a bound async
         # method is a coroutine function (like async def)
-        return {"m": "awaitify", "flavour": {"cls": "obj", "bound": "async"}.get(case["flavour"], case["flavour"]), "behs": case["behs"]}
+        return {"m": "awaitify", "flavour": {"cls": "obj", "bound": "async", "wrapsdef": "def"}.get(case["flavour"], case["flavour"]), "behs": case["behs"]}
     if case.get("family") in ("types", "groupby", "exitstack", "special") or case["tool"] in s1.NO_MODEL:
         return None
     return tools.model_request(case)
